@@ -1443,13 +1443,14 @@ func (up4 *UP4) sendUpdate(all PacketForwardingRules, updated PacketForwardingRu
 }
 
 func (up4 *UP4) sendDelete(deleted PacketForwardingRules) error {
+	if err := up4.modifyUP4ForwardingConfiguration(deleted.pdrs, deleted.fars, deleted.qers, p4.Update_DELETE); err != nil {
+		return err
+	}
+
+	// the entries that reference the counters are gone: only now may the cells be handed out again
 	for i := range deleted.pdrs {
 		up4.releaseCounterID(preQosCounterID,
 			uint64(deleted.pdrs[i].ctrID))
-	}
-
-	if err := up4.modifyUP4ForwardingConfiguration(deleted.pdrs, deleted.fars, deleted.qers, p4.Update_DELETE); err != nil {
-		return err
 	}
 
 	up4.resetMeters(deleted.qers)
